@@ -918,3 +918,83 @@ func c04UnwrapFromLast(p *Prog, r *Report) {
 		r.Und("C04.R12", "variadic positions", "", "no position-dependent variadic treatment found in package arg")
 	}
 }
+
+// c04TypeListPadded: C04.R7 clause — where a matcher constructor pads the list of declared types with the variadic element
+// type (a loop appending a reflect.Type obtained by Elem() to a []reflect.Type), the loop runs exactly while the type list
+// is shorter than the argument list: `len(types) < len(args)`. One iteration more or fewer makes the count comparison in
+// the converter refuse every condition of a variadic function (or accept a list one short).
+func c04TypeListPadded(p *Prog, r *Report) {
+	n := 0
+	for _, f := range p.FuncsIn("") {
+		if f.Blocks == nil {
+			continue
+		}
+		eachInstr(f, func(i ssa.Instruction) {
+			cl, ok := i.(*ssa.Call)
+			if !ok {
+				return
+			}
+			bi, ok := cl.Call.Value.(*ssa.Builtin)
+			if !ok || bi.Name() != "append" || cl.Type().String() != "[]reflect.Type" {
+				return
+			}
+			ph, ok := cl.Call.Args[0].(*ssa.Phi)
+			if !ok {
+				return
+			}
+			back := false
+			for _, e := range ph.Edges {
+				if e == ssa.Value(cl) {
+					back = true
+				}
+			}
+			if !back {
+				return
+			}
+			n++
+			// the loop test: If in the phi's block on len(phi) against len(<interface list>)
+			iff, _ := lastInstr(ph.Block()).(*ssa.If)
+			okCond := false
+			if iff != nil {
+				if bo, ok := iff.Cond.(*ssa.BinOp); ok && bo.Op == token.LSS && ph.Block().Succs[0] == cl.Block() {
+					lx, okx := bo.X.(*ssa.Call)
+					ly, oky := bo.Y.(*ssa.Call)
+					// counter form: i starts at len(initial types), steps by one, runs while i < len(args)
+					if cnt, isPhi := bo.X.(*ssa.Phi); isPhi && oky && cnt.Block() == ph.Block() {
+						startOK, stepOK := false, false
+						for ei, e := range cnt.Edges {
+							if inc, isB := e.(*ssa.BinOp); isB && inc.Op == token.ADD && inc.X == ssa.Value(cnt) {
+								if c, isC := constInt(inc.Y); isC && c == 1 {
+									stepOK = true
+								}
+								continue
+							}
+							if lc, isC := e.(*ssa.Call); isC {
+								if b0, isB := lc.Call.Value.(*ssa.Builtin); isB && b0.Name() == "len" && lc.Call.Args[0] == ph.Edges[ei] {
+									startOK = true
+								}
+							}
+						}
+						if by, isBy := ly.Call.Value.(*ssa.Builtin); isBy && by.Name() == "len" && startOK && stepOK {
+							if sl, ok := ly.Call.Args[0].Type().Underlying().(*types.Slice); ok && types.IsInterface(sl.Elem()) {
+								okCond = true
+							}
+						}
+					}
+					if okx && oky {
+						bx, isBx := lx.Call.Value.(*ssa.Builtin)
+						by, isBy := ly.Call.Value.(*ssa.Builtin)
+						if isBx && isBy && bx.Name() == "len" && by.Name() == "len" && lx.Call.Args[0] == ssa.Value(ph) {
+							if sl, ok := ly.Call.Args[0].Type().Underlying().(*types.Slice); ok && types.IsInterface(sl.Elem()) {
+								okCond = true
+							}
+						}
+					}
+				}
+			}
+			r.Check(okCond, "C04.R7", "declared types padded up to the number of arguments in "+shortName(f), p.Pos(posOf(cl)), "loop runs while len(types) < len(args)",
+				"the loop that pads the declared types of a variadic function with the element type does not run exactly while len(types) < len(args): the converter's count comparison then refuses every condition of a variadic function (or accepts a list that is one short)")
+		})
+	}
+	r.Stat("type_list_paddings", n)
+}
